@@ -623,7 +623,7 @@ func (fb *fnBounds) inferPhiInvariants() {
 					}
 					c, base := c, base
 					fb.blockInv[b] = append(fb.blockInv[b], blockCand{alive: true, desc: c.key() + " at merge",
-						at:  func(at ssa.Instruction) constraint { return fb.invConstraint(c, base, at, false) },
+						at:   func(at ssa.Instruction) constraint { return fb.invConstraint(c, base, at, false) },
 						fact: fb.invConstraint(c, base, first, false)})
 				}
 			}
